@@ -63,6 +63,49 @@ def hSw : List String → String → Res
     some (model, vb (confined && String.intercalate ";" refOuts == impl))
   | _, _ => none
 
+/-- a section (outer) of a section (inner) of the scripted writer: the outer section's underlying call is the
+    inner section's `WriteAt`; what the innermost writer sees is the inner section's underlying call. Built from
+    the model's own step functions (no new model code). -/
+def runSwNested : List SwCall → SectionWriter → SectionWriter → List String
+  | [], _, _ => []
+  | c :: r, outer, inner =>
+    -- first pass: what does the outer section hand to its underlying writer (the inner section)?
+    let probe := outer.step (match c with
+      | .write plen _ => .write plen ⟨plen, false⟩
+      | .writeAt plen off _ => .writeAt plen off ⟨plen, false⟩
+      | other => other)
+    match probe.2.2 with
+    | none =>
+      let (outer', ret, _) := outer.step c
+      showSwOut ret none :: runSwNested r outer' inner
+    | some u =>
+      -- the inner section answers that WriteAt, consulting the scripted writer with the case's answer
+      let ans : UAns := match c with
+        | .write _ a => a
+        | .writeAt _ _ a => a
+        | _ => ⟨0, false⟩
+      let (iret, iu) := inner.writeAt u.len u.off ans
+      let innerAns : UAns := ⟨iret.n.toNat, iret.err.isSome⟩
+      let (outer', ret, _) := outer.step (match c with
+        | .write plen _ => .write plen innerAns
+        | .writeAt plen off _ => .writeAt plen off innerAns
+        | other => other)
+      -- an error of the inner section reaches the caller as that error (short write stays a short write)
+      let ret' : Ret := match iret.err, ret.err with
+        | some .shortWrite, some .underlying => { ret with err := some .shortWrite }
+        | _, _ => ret
+      showSwOut ret' iu :: runSwNested r outer' inner
+
+def hSwn : List String → String → Res
+  | [off1, n1, off2, n2, calls], _impl => do
+    let off1 ← pInt off1; let n1 ← pInt n1; let off2 ← pInt off2; let n2 ← pInt n2
+    let calls ← (splitNE calls ";").mapM pSwCall
+    let model := String.intercalate ";" (runSwNested calls (newSectionWriter off2 n2) (newSectionWriter off1 n1))
+    -- no separate reference machine for the composition: the model (proved equal to the reference machine
+    -- step by step) decides
+    some (model, "big")
+  | _, _ => none
+
 def hAtw : List String → String → Res
   | [off, calls], impl => do
     let off ← pInt off
